@@ -193,13 +193,14 @@ def etree_iter_paths(elem: ElementProtocol, path: str = '.') \
     comment_nodes = 0
     pi_nodes = Counter[Optional[str]]()
     positions = Counter[Optional[str]]()
-    parent_path = '' if path == '/' else path  # the step of a child starts with a slash
+    # the step of a child is joined with a slash, except to an empty (relative) path
+    prefix = '/' if path == '/' else f'{path}/' if path else ''
 
     for child in elem:
         if callable(child.tag):
             if child.tag.__name__ == 'Comment':
                 comment_nodes += 1
-                yield child, f'{parent_path}/comment()[{comment_nodes}]'
+                yield child, f'{prefix}comment()[{comment_nodes}]'
                 continue
 
             try:
@@ -209,7 +210,7 @@ def etree_iter_paths(elem: ElementProtocol, path: str = '.') \
                 name = child.text.split(' ', maxsplit=1)[0]
 
             pi_nodes[name] += 1
-            yield child, f'{parent_path}/processing-instruction({name})[{pi_nodes[name]}]'
+            yield child, f'{prefix}processing-instruction({name})[{pi_nodes[name]}]'
             continue
 
         if child.tag.startswith('{'):
